@@ -271,6 +271,44 @@ def classify(body, vis):
     raise Fail("arm body parses but neither visits nor stores: %s" % inner[:300])
 
 
+U16_READS = {"read_u16": 1, "read_u16_as_local_variable": 1}   # reader methods that consume exactly one u16
+U16_HELPER = "fn read_u16_as_local_variable(&mut self) -> Result<LvIndex> { Ok(LvIndex { index: self.read_u16()? }) }"
+
+
+def row_width(body):
+    """A table-like arm  `let table = X.get_or_insert_with(Vec::new); let N = reader.read_u16()?;
+    for _ in 0..N { <reads>; table.push(…); }`  ->  the number of u16 its loop body reads per row.
+    None for arms of another kind.  Fails closed: anything but whole-u16 reads in the loop body, more than
+    one push, or reads outside the loop is an error."""
+    inner = body
+    if inner.startswith("{") and inner.endswith("}"):
+        inner = inner[1:-1].strip()
+    if "table.push(" not in inner:
+        return None
+    m = re.match(r"^let table = \w+\.get_or_insert_with\(Vec::new\); let (\w+) = reader\.read_u16\(\)\?; for _ in 0\.\.\1 \{", inner)
+    if not m:
+        raise Fail("table arm: expected `let table = …; let n = reader.read_u16()?; for _ in 0..n {`: %s" % inner[:200])
+    b = m.end() - 1
+    e = match_close(inner, b)
+    if inner[e + 1:].strip() != "":
+        raise Fail("table arm: statements after the row loop: %s" % inner[e + 1:][:200])
+    loop = nostr(inner[b + 1:e])
+    if loop.count("table.push(") != 1:
+        raise Fail("table arm: the row loop pushes %d times" % loop.count("table.push("))
+    if re.search(r"\b(for|while|loop|if|match)\b", loop):
+        raise Fail("table arm: control flow inside the row loop: %s" % loop[:200])
+    width = 0
+    for call in re.finditer(r"\breader\.(\w+)\(", loop):
+        if call.group(1) not in U16_READS:
+            raise Fail("table arm: the row loop calls reader.%s (only whole-u16 reads are known)" % call.group(1))
+        width += U16_READS[call.group(1)]
+    if re.search(r"\breader\s*[,)]|&mut\s+reader\b", loop):
+        raise Fail("table arm: the row loop hands the reader to another function: %s" % loop[:200])
+    if width == 0:
+        raise Fail("table arm: the row loop reads nothing")
+    return width
+
+
 def gstr(s):
     return "[" + ";".join(str(ord(c)) for c in s) + "] (* %s *)" % s.replace("*)", "* )")
 
@@ -329,6 +367,14 @@ def generate():
         expected = 1 if name in [c[0] for c in CONTEXTS] else 0
         if cnt != expected:
             raise Fail("fn %s contains %d attribute loops (`match attribute_name.as_java_str()`), expected %d" % (name, cnt, expected))
+    # the one helper the row loops use besides read_u16 reads exactly one u16
+    if U16_HELPER not in norm(src):
+        raise Fail("trait CodeReadHelper: fn read_u16_as_local_variable is no longer `Ok(LvIndex { index: self.read_u16()? })`")
+    # the exception table of read_code: a u16 count, then per entry four u16 (the model parses rows of width 4: C17/Model.v exc_rows)
+    if not re.search(r"let exception_table = reader\.read_vec\( \|r\| r\.read_u16_as_usize\(\), \|r\| Ok\(Exception \{ start: labels\.get_or_create\(r\.read_u16\(\)\?\)\?, "
+                     r"end: labels\.get_or_create_check_exclusive\(r\.read_u16\(\)\?\)\?, handler: labels\.get_or_create\(r\.read_u16\(\)\?\)\?, "
+                     r"catch: pool\.get_optional\(r\.read_u16\(\)\?, PoolRead::get_class\)\?, \}\) \)\?;", norm(fns.get("read_code", ""))):
+        raise Fail("fn read_code: the exception table is no longer `read_vec(u16 count, Exception { start, end, handler, catch: 4 × read_u16 })`")
     summary = {}
     for fn, cname, vis, ifile, istruct in CONTEXTS:
         if fn not in fns:
@@ -346,6 +392,7 @@ def generate():
             raise Fail("fn %s: no arms" % fn)
         ifields = interests_fields(strip_comments(open(os.path.join(duke, ifile), encoding="utf-8").read()), istruct)
         lines = []
+        widths = []
         for pattern, abody in arms:
             m = PAT_NAME.match(pattern)
             if m:
@@ -368,15 +415,25 @@ def generate():
             except Fail as ex:
                 raise Fail("fn %s, arm `%s`: %s" % (fn, pattern, ex))
             lines.append("  mkArm (%s) %s (%s)" % (pat, guard, act))
+            try:
+                w = row_width(abody)
+            except Fail as ex:
+                raise Fail("fn %s, arm `%s`: %s" % (fn, pattern, ex))
+            if w is not None:
+                if not act.startswith("AParse (DStore") or not act.endswith("false)") or not PAT_NAME.match(pattern):
+                    raise Fail("fn %s, arm `%s`: a row loop in an arm that is not a named `get_or_insert_with` table arm" % (fn, pattern))
+                widths.append("(%s, %d)" % (gstr(consts[PAT_NAME.match(pattern).group(1)]), w))
+            elif act.startswith("AParse (DStore") and act.endswith("false)"):
+                raise Fail("fn %s, arm `%s`: a `get_or_insert_with` table arm without a recognisable row loop" % (fn, pattern))
         flags_event = (vis + ".visit_deprecated_and_synthetic_attribute(is_deprecated, is_synthetic)?;") in nbody
         # deferred deliveries after the loop:  if let Some(table) = SLOT { VIS.visit_…(table)?; }
         deferred = re.findall(r"if let Some\(table\) = (\w+) \{ %s\.visit_\w+\(table\)\?; \}" % re.escape(vis), nbody)
         out.append("Definition %s_arms : list arm := [" % cname)
         out.append(";\n".join(lines))
         out.append("].")
-        out.append("Definition %s_table : ctx_table := mkCtx %s_arms %s [%s] [%s]." % (
+        out.append("Definition %s_table : ctx_table := mkCtx %s_arms %s [%s] [%s] [%s]." % (
             cname, cname, "true" if flags_event else "false",
-            "; ".join(gstr_plain(d) for d in deferred), "; ".join(gstr_plain(f) for f in ifields)))
+            "; ".join(gstr_plain(d) for d in deferred), "; ".join(gstr_plain(f) for f in ifields), "; ".join(widths)))
         out.append("")
         summary[cname] = len(arms)
 
